@@ -1,6 +1,7 @@
 package snaps
 
 import (
+	"bytes"
 	"encoding/json"
 	"errors"
 	"fmt"
@@ -153,7 +154,8 @@ func validateJSON(input any) ([]byte, error) {
 			return nil, errInvalidJSON
 		}
 
-		return j, nil
+		// matchers rewrite the document in place: never hand them the caller's slice
+		return bytes.Clone(j), nil
 	default:
 		return json.Marshal(input)
 	}
